@@ -35,7 +35,7 @@ func H07() {
 	sc := hcGenerate(param("n"))
 	hasAug := false
 	for _, lv := range sc.levels {
-		if lv.op == opAugment || lv.op == opAugment2 {
+		if lv.op == opAugment || lv.op == opAugment2 || lv.op == opAugmentSub {
 			hasAug = true
 		}
 	}
